@@ -132,7 +132,7 @@ def task_dist_transform(task):
                     res[str(k)] = "ok"
                     continue
                 if diff.is_Rational and tol is None:
-                    res[str(k)] = {"status": "mismatch", "transform_value": str(sp.nsimplify(v.rewrite(sp.gamma))), "moment": str(m)}
+                    res[str(k)] = {"status": "mismatch", "transform_value": str(sp.simplify(v.rewrite(sp.gamma))), "moment": str(m)}
                     continue
                 num = complex(sp.N(diff, 40))
                 scale = max(1.0, abs(complex(sp.N(m, 20))))
@@ -197,7 +197,7 @@ def task_dist_locscale(task):
     for a, v in vars(nd.distribution).items():
         newp.append([a, _frac(sp.sympify(v).subs(subs))])
     return {"new_family": type(nd.distribution).__name__, "new_params": newp, "c0": _frac(c0),
-            "c1_sq": _frac(sp.simplify(c1 ** 2)), "c1_rational": bool(sp.nsimplify(c1).is_Rational),
+            "c1_sq": _frac(sp.simplify(c1 ** 2)), "c1_rational": bool(sp.simplify(c1).is_Rational),
             "c1_sign": int(sp.sign(c1)), "target": str(na.variable), "text": f"{nd} ; {na}"}
 
 
